@@ -205,6 +205,12 @@ class CompRel:
                 else:
                     self.rules.append(ru_)
             news = [(v, n) for v, n in r['app_values'] if v[0] == 'new']
+            if r['path'].end != 'raise' and not news:
+                other = [(v, n) for v, n in r['app_values'] if v != self.pa.item]
+                if other:
+                    # something is appended for this rule, built by a helper / expression that is not followed: no verdict
+                    raise AnalysisError("transform_compressible: what is appended for rule {!r} ({}) is not a construction the analysis follows".format(
+                        key, show(other[0][0])[:100]))
             if r['path'].end == 'raise' or not news:
                 self.unbuilt.append((key, r))
                 continue
@@ -254,6 +260,11 @@ class CompRel:
         cls = next(iter(classes))
         if hasattr(self.facts, 'init_understood') and not self.facts.init_understood(cls):
             raise AnalysisError('{}: how __init__ of {} fills the attributes of the item is not understood'.format(mnemonic, cls))
+        for c in self.facts.mro(cls):
+            if getattr(self.facts.classes[c], 'init_opaque', False):
+                # which attributes an item of this class has is not read off its constructor: rules about "a field the items do not
+                # have", empty regions and the like would rest on an incomplete attribute list
+                raise AnalysisError('{}.__init__ stores attributes in a way the class model does not follow: which fields {} items have is not known'.format(c, mnemonic))
         attrs = [a for a, _ in self.facts.full_attr_order(cls) if a not in ('line', 'name', 'is_auipc_jump', 'aq', 'rl')]
         return cls, attrs
 
@@ -267,7 +278,9 @@ class CompRel:
             if lo is None or hi is None:
                 if pts:
                     return sorted(pts)
-                # unbounded rule on imm: use the instruction's own legal range
+                # unbounded rule on imm: use the instruction's own legal range (the region may reach beyond it: what is enumerated
+                # is a part of the region, so an empty enumeration proves nothing)
+                rule.imm_domain_is_fallback = any(t[0] in ('IMM', 'IMMC', 'IMMX') for f in rule.enum_formulas(mode) for t in terms_of(f))
                 op = [o for o in spec['operands'] if o['kind'] == 'imm'] if spec else []
                 if not op:
                     return [0]
@@ -291,7 +304,7 @@ class CompRel:
             if unary:
                 doms[idx] = [v for v in doms[idx] if all(eval_formula(f, {a: v, 'name': rule.name}) for f in unary)]
         earlier = self.rules[:self.rules.index(rule)]
-        earlier = [e for e in earlier if e.name == rule.name]
+        earlier = [e for e in earlier if e.name in (rule.name, None)]      # a rule whose mnemonic is not a single constant may shadow too
         for combo in itertools.product(*doms):
             tup = dict(zip(attrs, combo))
             tup['name'] = rule.name
@@ -395,7 +408,13 @@ def check_final_immediates(report, rel, rule):
     n = 0
     for ru in rel.rules:
         con = rel.constructions.get(ru.key)
-        if con is None or ru.name is None:
+        if con is None:
+            continue
+        if ru.name is None:
+            # which instruction the rule replaces is not a single mnemonic: whether that instruction has an immediate the
+            # compressed form drops is not established
+            if any(t[0] == 'NAME' for f in ru.formulas for t in terms_of(f)):
+                report.undecided("rule '{}': the mnemonic it applies to is not a single constant, so whether it drops an immediate is not decided".format(ru.key))
             continue
         cls, attrs = rel.item_fields(ru.name)
         if cls is None or 'imm' not in attrs:
@@ -437,6 +456,8 @@ def simplify(f, assign):
             return T if val else F_
         if f[1] in ('==', '!=') and f[2][0] in ('IMM', 'IMMC', 'REG') and f[3] == ('const', None):
             return F_ if f[1] == '==' else T          # an evaluated operand is a number, never None
+        if f[1] in ('==', '!=') and f[2] == ('NAME',) and f[3][0] == 'const' and isinstance(assign.get('NAME'), str):
+            return T if (assign['NAME'] == f[3][1]) == (f[1] == '==') else F_          # the rule's own mnemonic is known
         return f
     if k == 'not':
         x = simplify(f[1], assign)
@@ -525,13 +546,15 @@ def check_stable_decisions(report, rel, rule):
             continue
         n += 1
         kinds = lambda term, ru=ru: ru.inst_isa(term[1]) if term[1].startswith('inst isa ') else None
-        residual = [simplify(f, {'ISOFFSET': False, 'KIND': kinds}) for f in ru.formulas]
+        # the rule fixes its mnemonic: tests of the mnemonic inside the predicates (`i.name in B_TYPE_INSTRUCTIONS`) are decided
+        named = {'NAME': ru.name} if ru.name is not None else {}
+        residual = [simplify(f, dict(named, ISOFFSET=False, KIND=kinds)) for f in ru.formulas]
         live = [t for f in residual for t in terms_of(f) if t[0] == 'IMM']
         # a pc-relative label offset is a stable operand only for jumps and branches (moving labels bring the target closer, and
         # the 32-bit form needs the same alignment); for any other instruction `!= 0` / `% 4 == 0` can stop holding
         pcrel = oracle.RV32_FORMAT.get(ru.name) in ('J', 'B')
         if not pcrel:
-            residual2 = [simplify(f, {'ISOFFSET': True, 'KIND': kinds}) for f in ru.formulas]
+            residual2 = [simplify(f, dict(named, ISOFFSET=True, KIND=kinds)) for f in ru.formulas]
             live = live + [t for f in residual2 for t in terms_of(f) if t[0] == 'IMM']
         else:
             # ... and only when the target is a label: the distance to an absolute constant *grows* when the code in front of the
@@ -556,6 +579,9 @@ def check_stable_decisions(report, rel, rule):
                                     line=getattr(node_, 'lineno', None)), instance="rule '{}' pc-relative decision only for label targets".format(ru.key))
         con = rel.constructions.get(ru.key)
         node = con.node if con is not None else rel.pa.loop
+        if live and ru.name is None:
+            report.undecided("rule '{}': the mnemonic it applies to is not a single constant, so whether a pc-relative operand is stable for it is not decided".format(ru.key))
+            continue
         report.check(not live, rule, "rule '{}' looks at the immediate only when it is final (label-free){}".format(ru.key, ' or the label target of the jump / branch' if pcrel else ''),
                      lambda ru=ru, node=node: Finding(rule, 'transform_compressible', node,
                                                       "rule '{}' tests the immediate against the live label table whatever kind of expression it is: an absolute label-dependent "
